@@ -68,6 +68,28 @@ func depthFor(c *acfg, tier string) (depth, split int) {
 	}
 }
 
+// bounds describes the enumerated space of both tiers for the evidence file.
+func bounds() map[string]interface{} {
+	out := map[string]interface{}{}
+	for _, tier := range []string{"quick", "thorough"} {
+		m := map[string]interface{}{}
+		for _, c := range configs() {
+			d, s := depthFor(c, tier)
+			m[c.Name] = map[string]interface{}{"max_program_length": d, "split_level": s, "sizes": c.Sizes, "append_counts": c.Ks,
+				"max_live_handles": maxHandles, "pool_answers": "all (every Get on a non-empty pool: pooled object / new object)"}
+		}
+		n := 0
+		for _, fam := range giantPrograms(tier) {
+			n += len(fam)
+		}
+		m[giantCfgName] = map[string]interface{}{"programs": n, "max_program_length": 3, "pool_answers": "all"}
+		sc := buildConc(tier)
+		m["concurrent"] = map[string]interface{}{"scenarios": len(sc), "threads": 2, "P": sc[0].P, "D": sc[0].D, "hb_cache": !sc[0].NoCache}
+		out[tier] = m
+	}
+	return out
+}
+
 func replay(scenario string, input json.RawMessage) string {
 	var in replayInput
 	if err := json.Unmarshal(input, &in); err != nil {
@@ -109,5 +131,6 @@ func main() {
 		Build: buildConc, Seq: seq, ReplaySeq: replay,
 		QuickBudget: 40 * time.Second, ThoroughBudget: 10 * time.Minute,
 		MinNonTrivial: 1000,
+		Extra:         map[string]interface{}{"bounds": bounds()},
 	})
 }
